@@ -185,7 +185,9 @@ func (workerPoolSelf *DefaultWorkerPool) generateWorkerWithMaximum(maximum int) 
 	go func() {
 		// Recover & Recycle
 		defer func() {
+			isPanicked := false
 			if panic := recover(); panic != nil {
+				isPanicked = true
 				if handler := workerPoolSelf.panicHandler; handler != nil {
 					handler(panic)
 				}
@@ -197,7 +199,14 @@ func (workerPoolSelf *DefaultWorkerPool) generateWorkerWithMaximum(maximum int) 
 			if isBusy {
 				workerPoolSelf.workerBusy--
 			}
+			isBelowStandBy := workerPoolSelf.workerCount < workerPoolSelf.workerSizeStandBy
 			workerPoolSelf.lock.Unlock()
+
+			// A worker killed by a job panic(or too many workers expired at once):
+			// let the spawn loop check whether the queued jobs/standby need a new one
+			if (isPanicked || isBelowStandBy) && !workerPoolSelf.IsClosed() {
+				workerPoolSelf.spawnWorkerCh.Offer(1)
+			}
 		}()
 
 		// Do Jobs
